@@ -239,7 +239,12 @@ def run(ctx):
                         ('globfilter REALPATH exclusion-only', lambda: Gm.globfilter([b'keep.txt'], b'!skip.log', flags=Gm.NEGATE | Gm.REALPATH, root_dir='.')),
                         ('compile().match REALPATH exclusion-only', lambda: Gm.compile(b'!skip.log', flags=Gm.NEGATE | Gm.REALPATH).match(b'keep.txt', root_dir='.')),
                         ('compile().match REALPATH NEGATEALL', lambda: Gm.compile(b'!skip.log', flags=Gm.NEGATE | Gm.NEGATEALL | Gm.REALPATH).match(b'keep.txt', root_dir='.')),
-                        ('compile().filter REALPATH', lambda: Gm.compile('*.txt', flags=Gm.REALPATH).filter(['keep.txt'], root_dir=b'.'))] + mixed_calls:
+                        ('compile().filter REALPATH', lambda: Gm.compile('*.txt', flags=Gm.REALPATH).filter(['keep.txt'], root_dir=b'.')),
+                        # an empty name is a name of its type like any other
+                        ("globmatch('', b'*')", lambda: Gm.globmatch('', b'*')), ("globmatch(b'', '*')", lambda: Gm.globmatch(b'', '*')), ("fnmatch('', b'*')", lambda: Fm.fnmatch('', b'*')),
+                        ("fnmatch.filter([''], b'*')", lambda: Fm.filter([''], b'*')), ("globfilter([b'a', b''], '*')", lambda: Gm.globfilter([b'a', b''], '*')),
+                        ("compile(b'*').match('')", lambda: Fm.compile(b'*').match('')), ("fnmatch('', b'!x', NEGATE|NEGATEALL)", lambda: Fm.fnmatch('', b'!x', flags=Fm.NEGATE | Fm.NEGATEALL)),
+                        ("globmatch(b'', '*', REALPATH)", lambda: Gm.globmatch(b'', '*', flags=Gm.REALPATH))] + mixed_calls:
         evals += 1
         try:
             r = thunk()
@@ -248,6 +253,25 @@ def run(ctx):
             pass
         except Exception as ex:
             ctx.counterexample('%s raised %s instead of TypeError' % (what, type(ex).__name__), {'call': what})
+    # instances of a str / bytes subclass are names, patterns and roots of their base type: same answers, no TypeError
+    class SubS(str):
+        pass
+
+    class SubB(bytes):
+        pass
+    for what, thunk, want in [("fnmatch(S('a.txt'), '*.txt')", lambda: Fm.fnmatch(SubS('a.txt'), '*.txt'), True), ("filter([S('a')], 'a')", lambda: Fm.filter([SubS('a')], 'a'), ['a']),
+                              ("fnmatch(B(b'a'), b'?')", lambda: Fm.fnmatch(SubB(b'a'), b'?'), True), ("globmatch(S('a/b'), 'a/*')", lambda: Gm.globmatch(SubS('a/b'), 'a/*'), True),
+                              ("globmatch('a', S('a'))", lambda: Gm.globmatch('a', SubS('a')), True), ("globmatch(S('x'), '!x', NEGATE|NEGATEALL)", lambda: Gm.globmatch(SubS('x'), '!x', flags=Gm.NEGATE | Gm.NEGATEALL), False),
+                              ("globmatch('.', '*', REALPATH|DOTGLOB... root_dir=S('.'))", lambda: Gm.globmatch('..', '..', flags=Gm.REALPATH, root_dir=SubS('.')), True),
+                              ("globmatch(B(b'..'), b'..', REALPATH, root_dir=b'.')", lambda: Gm.globmatch(SubB(b'..'), b'..', flags=Gm.REALPATH, root_dir=b'.'), True),
+                              ("compile('*').match(S('q'))", lambda: bool(Fm.compile('*').match(SubS('q'))), True), ("globfilter([S('a'), 'b'], '[ab]')", lambda: Gm.globfilter([SubS('a'), 'b'], '[ab]'), ['a', 'b'])]:
+        evals += 1
+        try:
+            r = thunk()
+        except Exception as ex:
+            r = 'raised %s: %s' % (type(ex).__name__, ex)
+        if r != want:
+            ctx.counterexample('%s gives %r; with plain str/bytes arguments the answer is %r (nothing here mixes str and bytes)' % (what, r, want), {'call': what})
     # glob / WcMatch on a tree, str root vs bytes root: same paths, same order
     tmp = tempfile.mkdtemp(prefix='c18_')
     try:
